@@ -55,6 +55,23 @@ func failing(repo string, overlay map[string][]byte, prop string) ([]string, err
 	if err != nil {
 		return nil, err
 	}
+	if prop == "any" {
+		// every rule on one load: the union of what any property reports
+		var keys []string
+		for _, id := range rules.IDs() {
+			ks, err := failingOn(p, id)
+			if err != nil {
+				return nil, err
+			}
+			keys = append(keys, ks...)
+		}
+		sort.Strings(keys)
+		return keys, nil
+	}
+	return failingOn(p, prop)
+}
+
+func failingOn(p *an.Prog, prop string) ([]string, error) {
 	r := rules.Get(prop)
 	if r == nil {
 		return nil, fmt.Errorf("no rule %s", prop)
